@@ -285,6 +285,28 @@ def shard_unpriv(seed, count):
     return acc
 
 
+# the same clause under VMSA: unprivileged load/store forms executed in privileged modes, and plain loads/stores executed in User mode, against page
+# tables whose permissions (AP/APX, domains incl. Manager domains next to the Client one, sections / supersections / pages) separate the privilege
+# levels; C15's table builder, oracle = the reference translation with the privilege the architecture prescribes for that access
+UNPRIV_VMSA_ROWS = [r for r in ('LDRT_A1', 'LDRT_A2', 'STRT_A1', 'STRT_A2', 'LDRBT_A1', 'STRBT_A1', 'LDRHT_A1', 'STRHT_A1', 'LDRSBT_A1', 'LDRSHT_A1', 'LDRT_T1', 'STRT_T1',
+                                'LDR_imm_A1', 'STR_imm_A1', 'LDR_imm_T1', 'STR_imm_T1', 'STM_A1', 'LDM_A1') if r in e1prop.ROWS]
+
+
+def _vmsa_kw(rng, row):
+    unpriv = row.name.startswith(('LDRT', 'STRT', 'LDRBT', 'STRBT', 'LDRHT', 'STRHT', 'LDRSBT', 'LDRSHT'))
+    return {'mmu': False, 'e': 0, 'code_base': 0x8000, 'mode': rng.choice(('svc', 'sys', 'irq', 'abt')) if unpriv else 'usr'}
+
+
+def _vmsa_tweak(rng, row, w, case):
+    from vf.props import c15
+    c15.tweak(rng, row, w, case)
+
+
+PLAN_VMSA = e1prop.Plan('C19', UNPRIV_VMSA_ROWS, cfgs=('v7-vmsa', 'v6-vmsa'), tweak_case=_vmsa_tweak, hooked=(True, True, False), case_kw=_vmsa_kw,
+                        classify=lambda res, case: ['vmsa:' + res.status + (':' + str(res.detail) if res.status == 'abort' else '')],
+                        nontrivial=lambda res: res.status == 'abort' or e1prop.default_nontrivial(res))
+
+
 def run(ctx):
     ctx.rule = ('CPSR.M = User: every 16-bit Thumb halfword in each IT position (exhaustive), constructed words of every instruction that tries to '
                 'touch privileged state (MSR/CPS/SETEND/RFE/SRS/LDM^/STM^/SUBS PC,LR/ERET/SMC/SVC/MCR../LDRT..), random ARM and 32-bit Thumb words, one witness + members per joint decoder region (Thumb-32; ARM too in thorough), '
@@ -292,7 +314,7 @@ def run(ctx):
                 'system registers) on configurations ' + ', '.join(CFGS) + ', stock and hooked. Validity oracle, no reference semantics: after '
                 'the step either still User with A/I/F, every banked register / SPSR of other modes, ELR_hyp and every system register bit-identical '
                 '(generic snapshot minus user-visible state), or an exception was taken: privileged mode, PC at that mode\'s vector, SPSR.M = User and only '
-                'the state that entry writes changed. Second clause: unprivileged load/store forms in privileged modes against MPU regions with '
+                'the state that entry writes changed. Second clause (PMSA and VMSA): under VMSA the unprivileged forms in privileged modes and plain loads/stores in User mode run against generated page tables (C15 builder: AP/APX, Client and Manager domains, sections, supersections, pages) and are compared with the reference; under PMSA unprivileged load/store forms in privileged modes against MPU regions with '
                 'AP = priv-only / user-read-only / priv-read-only must abort without transferring. Non-trivial: the word changes privileged state when '
                 'run from Supervisor mode in the same state, or an exception was taken; distinct = (word, config, IT position).')
     ctx.technique = 'exhaustive enumeration of 16-bit encodings + constructed/random fuzzing with a privileged-state frame oracle'
@@ -311,6 +333,7 @@ def run(ctx):
         tasks.append((shard_programs, (c, ctx.shard_seed(k), ctx.n(800, 15000))))
         k += 1
     tasks += [(shard_unpriv, (ctx.shard_seed(k + i), ctx.n(600, 10000))) for i in range(4)]
+    tasks += [(e1prop.shard, ('vf.props.c19:PLAN_VMSA', ctx.shard_seed(k + 10 + i), ctx.n(150, 3000))) for i in range(8)]
     from vf.props import c07
     c07.SPEC32.compute_joint()
     tasks += [(shard_witness, ('t32', i, 8, ctx.shard_seed(k + 20 + i), ctx.n(6, 40))) for i in range(8)]
@@ -342,6 +365,8 @@ def replay(case, bucket=None):
         if not uc['user_denied'] and aborted:
             return ['spurious-abort']
         return []
+    if bucket and ':' in bucket and bucket.split(':')[1] in e1prop.ROWS:
+        return e1prop.replay(PLAN_VMSA, case)
     cpu = e1.build(case)
     pre = target.snapshot(cpu, False)
     for _ in range(case.get('steps', 1)):
